@@ -3,7 +3,7 @@
 TIER="$1"; shift
 cd "$(dirname "$0")/.." || exit 2
 for S in "$@"; do
-  for C in $(/venv/bin/python -c "import json;print(' '.join(json.load(open('tools/accepted.json'))))"); do
+  for C in ${CHECKS:-$(/venv/bin/python -c "import json;print(' '.join(json.load(open('tools/accepted.json'))))")}; do
     OUT=$(VERIF_SEED=$S ./check $C --tier $TIER 2>&1); RC=$?
     echo "seed=$S $C rc=$RC $(echo "$OUT" | grep -E '^\[C' | sed 's/.*wall=/wall=/')"
     [ $RC -ne 0 ] && echo "$OUT" | grep -E "^(VIOLATION|INCONCLUSIVE)|key=" | cut -c1-300 | head -8
